@@ -477,7 +477,19 @@ func genLargeScopes(c *core.Check, emit func(prog) bool) {
 		}
 	}
 	for _, n := range ns {
-		for variant := 0; variant < 2; variant++ {
+		for variant := 0; variant < 3; variant++ {
+			// variant 2: the last declared (and so last named) variables have one-character source names, as loop counters
+			// and already minified code do: their generated names are longer than the names they replace
+			short := []string{"i", "j", "k", "x", "y", "z", "u", "v", "w", "p", "q", "r", "m", "l", "g", "c", "d", "b", "o", "A"}
+			name := func(i int) string {
+				if variant == 2 && n-i <= len(short) {
+					return short[n-i-1]
+				}
+				return fmt.Sprintf("V%d", i)
+			}
+			if variant == 2 && n < 50 {
+				continue
+			}
 			var b strings.Builder
 			b.WriteString("function F(h0,h1,h2,h3){")
 			if variant == 1 {
@@ -485,7 +497,7 @@ func genLargeScopes(c *core.Check, emit func(prog) bool) {
 			}
 			b.WriteString("var s=0;")
 			for i := 0; i < n; i++ {
-				fmt.Fprintf(&b, "var V%d=%d;", i, i+1)
+				fmt.Fprintf(&b, "var %s=%d;", name(i), i+1)
 			}
 			for i := 0; i < n; i++ {
 				if i%100 == 0 {
@@ -494,7 +506,7 @@ func genLargeScopes(c *core.Check, emit func(prog) bool) {
 					}
 					b.WriteString("s+=") // chunks: the parser limits expression nesting
 				}
-				fmt.Fprintf(&b, "V%d*%d+", i, i%7+1)
+				fmt.Fprintf(&b, "%s*%d+", name(i), i%7+1)
 			}
 			b.WriteString("0;")
 			if variant == 1 {
